@@ -15,7 +15,7 @@ fi
 here="$(cd "$(dirname "${BASH_SOURCE[0]}")/.." && pwd)"
 rsync -a --exclude bin --exclude work --exclude replays --exclude .git $here/ $root/verif/
 for c in "$@"; do
-  VERIF_REPO=$root/repo $root/verif/check $c > $root/$c.log 2>&1; rc=$?
+  VERIF_REPO=$root/repo $root/verif/check $c -tier ${TIER:-quick} > $root/$c.log 2>&1; rc=$?
   echo "[$name] $c rc=$rc $(grep -c '^VIOLATION' $root/$c.log) violation lines; $(tail -1 $root/$c.log | cut -c1-100)"
   grep -A1 "^VIOLATION" $root/$c.log | grep -v "^--\|^VIOLATION" | head -3 | cut -c1-220
 done
